@@ -15,6 +15,7 @@ does not) belongs to C05 and is not claimed here.
 import Nitime.Model.C12
 import Nitime.Lemmas.ARInst
 import Nitime.Lemmas.Granger
+import Nitime.Lemmas.GrangerObj
 import Mathlib.LinearAlgebra.Matrix.PosDef
 import Mathlib.LinearAlgebra.Matrix.Notation
 
@@ -323,6 +324,38 @@ theorem analyzer_freq_axis (Fs : ℝ) (n k : ℕ) :
 
 /-- the analyzer axis is the spectral grid exactly when `freq_response` does not ask for Nyquist -/
 theorem analyzer_grid_flag : Nitime.Generated.FreqResponse.includeNyquist = false := rfl
+
+/-! ### the analyzer re-targeted with `set_input` -/
+section retarget
+open Nitime.GrangerObj
+
+/-- **C12 analyzer re-targeted.** For EVERY history of `set_input`s and reads on one
+`GrangerAnalyzer` (model of `Model/GrangerObj.lean`: `_model`, `_granger_causality`, `frequencies`
+stored on first read, all dropped by `set_input`), every causality array read is `anaArrays` — the
+pairwise spectra placed by `_dict2arr` — of the fitted models of the input held AT THAT MOMENT, and
+every frequency axis is the axis of that input's sampling rate. -/
+theorem analyzer_retarget_spectra (nf : ℕ) (ops : List (Op AIn)) (d : AIn) :
+    run (fun d : AIn => some d.pairs) (fun d ps => anaArrays d.nproc nf ps) (analyzerAxis nf) ops
+        (construct d)
+      = ref (fun d : AIn => some d.pairs) (fun d ps => anaArrays d.nproc nf ps) (analyzerAxis nf) ops d :=
+  run_eq_ref _ _ _ ops d
+
+/-- in particular, whatever was read before: after `set_input(d')` the spectra and the axis are those of `d'` -/
+theorem analyzer_spectra_after_set_input (nf : ℕ) (pre : List (Op AIn)) (d0 d' : AIn) :
+    run (fun d : AIn => some d.pairs) (fun d ps => anaArrays d.nproc nf ps) (analyzerAxis nf)
+        (pre ++ [.setInput d', .readModel, .readGC, .readFreqs]) (construct d0)
+      = ref (fun d : AIn => some d.pairs) (fun d ps => anaArrays d.nproc nf ps) (analyzerAxis nf) pre d0 ++
+        [.done, .model (some d'.pairs), .gc (some (anaArrays d'.nproc nf d'.pairs)), .freqs (analyzerAxis nf d')] :=
+  read_after_setInput _ _ _ pre d0 d'
+
+/-- non-vacuity: read, re-target, read -/
+example (nf : ℕ) (d0 d' : AIn) :
+    run (fun d : AIn => some d.pairs) (fun d ps => anaArrays d.nproc nf ps) (analyzerAxis nf)
+        [.readGC, .setInput d', .readGC] (construct d0)
+      = [.gc (some (anaArrays d0.nproc nf d0.pairs)), .done, .gc (some (anaArrays d'.nproc nf d'.pairs))] := by
+  rw [analyzer_retarget_spectra]; rfl
+
+end retarget
 
 /-! ### non-vacuity: `H = I`, `Σ = I` meets every hypothesis -/
 
